@@ -50,7 +50,8 @@ Qed.
 Theorem oracle_region incl a ws off cnt :
   spec_answer incl a ws = Region (off, cnt) -> region_is incl (a_dims a) (a_shape a) ws off cnt.
 Proof.
-  unfold spec_answer. destruct (dims_dom (a_dims a) (a_shape a)) eqn:Hd; [|discriminate].
+  unfold spec_answer. destruct (1 <=? zlen (a_dims a)); [|discriminate].
+  destruct (dims_dom (a_dims a) (a_shape a)) eqn:Hd; [|discriminate].
   destruct (wants_dom (a_dims a) ws) eqn:Hw; [|discriminate]. cbn [andb]. unfold spec_region.
   pose proof (spec_dims_sound incl _ _ _ Hd Hw) as S.
   destruct (spec_dims incl (a_dims a) (a_shape a) ws) as [ocs| |]; try discriminate.
@@ -61,7 +62,8 @@ Qed.
 Theorem oracle_refuse incl a ws :
   spec_answer incl a ws = Refuse -> forall off cnt, ~ region_is incl (a_dims a) (a_shape a) ws off cnt.
 Proof.
-  unfold spec_answer. destruct (dims_dom (a_dims a) (a_shape a)) eqn:Hd; [|discriminate].
+  unfold spec_answer. destruct (1 <=? zlen (a_dims a)); [|discriminate].
+  destruct (dims_dom (a_dims a) (a_shape a)) eqn:Hd; [|discriminate].
   destruct (wants_dom (a_dims a) ws) eqn:Hw; [|discriminate]. cbn [andb]. unfold spec_region.
   pose proof (spec_dims_sound incl _ _ _ Hd Hw) as S.
   destruct (spec_dims incl (a_dims a) (a_shape a) ws) as [ocs| |]; try discriminate.
